@@ -1,7 +1,7 @@
 (* C19 — parts of the statement that were false of the pinned code (both repaired by fix: commits; the
    witnesses stay in the corpus of harness/c19.py) and a boundary of the format. *)
 From Coq Require Import String Ascii List Bool ZArith.
-Require Import V.Lib.PyStr V.Lib.JTree V.Dosini.Codec V.Dosini.Generated V.Dosini.Model V.Dosini.Text.
+Require Import V.Lib.PyStr V.Lib.JTree V.Dosini.Codec V.Dosini.Generated V.Dosini.Model V.Dosini.Text V.Dosini.Render.
 Import ListNotations.
 Open Scope string_scope.
 
@@ -151,3 +151,19 @@ Theorem C19_meta_bool_rendering_refuted :
   exists v, scalar v = true /\ encv DBool v <> pystr v.
 Proof. exists (VBool true). split; [reflexivity|vm_compute; discriminate]. Qed.
 Print Assumptions C19_meta_bool_rendering_refuted.
+
+(* the private copy of _translate_dict_to_dict is necessary: without it (`del field[key]` on the dictionary of the description
+   itself) the first render of a description object is the right section, the object is left without the options that were
+   rendered, and the second render of the same object (or Dosini.dump of it) writes a section holding the variables only
+   (class of C19_m12; pinned one-row writer table) *)
+Theorem C19_render_without_private_copy_refuted :
+  exists dt o vs,
+    set_cells o <> [] /\
+    nth 0 (fst (render_seq false dt 2 [o] 0 vs)) None = dump_comp dt (mkComp (set_cells o) vs) /\
+    nth 1 (fst (render_seq false dt 2 [o] 0 vs)) None = Some vs /\
+    set_cells (sget (snd (render_seq false dt 2 [o] 0 vs)) 0) = [].
+Proof.
+  exists [("command.executable", ("executable", DStr))], [("command.executable", Some (VStr "echo"))], [("v", "1")].
+  vm_compute. repeat split; try reflexivity. discriminate.
+Qed.
+Print Assumptions C19_render_without_private_copy_refuted.
